@@ -158,99 +158,108 @@ func runSolver(ctx context.Context, sp solverSpec, file string, timeoutMs int) (
 // definitive answer wins; in thorough mode all answers are collected to
 // detect disagreement.
 func (eng *Engine) solve(o *Obligation, timeoutMs int, all bool) {
-	if !o.ExpectSat && !all {
-		if ft, dropped := smtTextFiltered(o); dropped {
-			// stage A: without quantified assumptions unrelated to the goal
-			h := sha256.Sum256([]byte(ft))
-			file := filepath.Join(eng.tmpdir, fmt.Sprintf("%x.a.smt2", h[:8]))
-			os.WriteFile(file, []byte(ft), 0o644)
-			ctx, cancel := context.WithCancel(context.Background())
-			type ans struct {
-				solver, status string
-				ms             int64
-			}
-			ch := make(chan ans, len(solvers))
-			for _, sp := range solvers {
-				sp := sp
-				go func() {
-					t0 := time.Now()
-					st, _ := runSolver(ctx, sp, file, 3000)
-					ch <- ans{sp.name, st, time.Since(t0).Milliseconds()}
-				}()
-			}
-			got := false
-			for i := 0; i < len(solvers); i++ {
-				a := <-ch
-				if a.status == "unsat" && !got {
-					got = true
-					o.Status, o.Solver, o.TimeMs = "unsat", a.solver, a.ms
-					o.Answers = map[string]string{a.solver: "unsat"}
-					o.SMTFile = file
-					cancel()
-				}
-			}
-			cancel()
-			if got {
-				return
-			}
-		}
-	}
-	text := smtText(o, false)
-	h := sha256.Sum256([]byte(text))
-	file := filepath.Join(eng.tmpdir, fmt.Sprintf("%x.smt2", h[:8]))
-	os.WriteFile(file, []byte(text), 0o644)
-	o.SMTFile = file
-	ctx, cancel := context.WithCancel(context.Background())
-	defer cancel()
-	type ans struct {
-		solver, status, out string
-		ms                  int64
-	}
-	ch := make(chan ans, len(solvers))
-	start := time.Now()
-	for _, sp := range solvers {
-		sp := sp
-		go func() {
-			t0 := time.Now()
-			st, out := runSolver(ctx, sp, file, timeoutMs)
-			ch <- ans{sp.name, st, out, time.Since(t0).Milliseconds()}
-		}()
-	}
+	o.Answers = map[string]string{}
 	want := "unsat"
 	if o.ExpectSat {
 		want = "sat"
 	}
-	o.Answers = map[string]string{}
-	o.Status = ""
-	for i := 0; i < len(solvers); i++ {
-		a := <-ch
-		o.Answers[a.solver] = a.status
-		if a.status == "sat" || a.status == "unsat" {
-			if o.Status == "" || (o.Status != want && a.status == want) {
-				o.Status = a.status
-				o.Solver = a.solver
-				o.TimeMs = a.ms
+	write := func(text, suffix string) string {
+		h := sha256.Sum256([]byte(text))
+		file := filepath.Join(eng.tmpdir, fmt.Sprintf("%x%s.smt2", h[:8], suffix))
+		os.WriteFile(file, []byte(text), 0o644)
+		return file
+	}
+	// race runs the given solvers on one file; first answer equal to `stopOn`
+	// (or any definitive answer if stopOn == "") ends the race.
+	race := func(file string, which []solverSpec, ms int, stopOn string, tag string) (string, string, int64) {
+		ctx, cancel := context.WithCancel(context.Background())
+		defer cancel()
+		type ans struct {
+			solver, status string
+			ms             int64
+		}
+		ch := make(chan ans, len(which))
+		for _, sp := range which {
+			sp := sp
+			go func() {
+				t0 := time.Now()
+				st, _ := runSolver(ctx, sp, file, ms)
+				ch <- ans{sp.name, st, time.Since(t0).Milliseconds()}
+			}()
+		}
+		best, bestSolver, bestMs := "", "", int64(0)
+		for i := 0; i < len(which); i++ {
+			a := <-ch
+			o.Answers[a.solver+tag] = a.status
+			if a.status == "sat" || a.status == "unsat" {
+				if best == "" || (best != want && a.status == want) {
+					best, bestSolver, bestMs = a.status, a.solver, a.ms
+				}
+				if !all && (stopOn == "" || a.status == stopOn) {
+					cancel()
+					// drain
+					for j := i + 1; j < len(which); j++ {
+						<-ch
+					}
+					break
+				}
 			}
-			if !all {
-				cancel()
-				break
-			}
+		}
+		return best, bestSolver, bestMs
+	}
+	start := time.Now()
+	full := write(smtText(o, false), "")
+	o.SMTFile = full
+	if o.ExpectSat {
+		// vacuity guard: only a quick `unsat` matters (with quantified assumptions
+		// in play the solvers rarely report `sat`)
+		ms := 2000
+		if timeoutMs < ms {
+			ms = timeoutMs
+		}
+		st, sv, tm := race(full, solvers[:2], ms, "", "")
+		if st == "" {
+			st = "unknown"
+		}
+		o.Status, o.Solver, o.TimeMs = st, sv, tm
+		return
+	}
+	if !o.ExpectSat && !all {
+		// stage A: drop quantified assumptions unrelated to the goal (sound: fewer hypotheses)
+		fileA := full
+		if ft, dropped := smtTextFiltered(o); dropped {
+			fileA = write(ft, ".a")
+		}
+		// A1: one fast solver alone; A2: the other two
+		if st, sv, ms := race(fileA, solvers[:1], 1500, "unsat", "/a"); st == "unsat" {
+			o.Status, o.Solver, o.TimeMs = st, sv, ms
+			return
+		}
+		if st, sv, ms := race(fileA, solvers[1:], 3000, "unsat", "/a"); st == "unsat" {
+			o.Status, o.Solver, o.TimeMs = st, sv, ms
+			return
+		}
+		if fileA == full {
+			// nothing was dropped: the remaining budget goes to one long race below
 		}
 	}
-	if o.Status == "" {
-		o.Status = "unknown"
-		for _, s := range o.Answers {
-			if s == "error" {
-				o.Status = "error"
-			}
-		}
-		for _, s := range o.Answers {
-			if s == "timeout" {
-				o.Status = "timeout"
-			}
-		}
-		o.TimeMs = time.Since(start).Milliseconds()
+	st, sv, ms := race(full, solvers, timeoutMs, "", "")
+	if st != "" {
+		o.Status, o.Solver, o.TimeMs = st, sv, ms
+		return
 	}
+	o.Status = "unknown"
+	for _, s := range o.Answers {
+		if s == "error" {
+			o.Status = "error"
+		}
+	}
+	for _, s := range o.Answers {
+		if s == "timeout" {
+			o.Status = "timeout"
+		}
+	}
+	o.TimeMs = time.Since(start).Milliseconds()
 }
 
 // solveAll discharges obligations in parallel, de-duplicated by content.
